@@ -38,7 +38,7 @@ def gen_history(rng):
             steps.append({'op': 'reset'})
         else:
             steps.append({'op': 'arith', 'fn': rng.choice(['+', '-', '*']), 'y_inexact': rng.random() < 0.5})
-    return {'s': s, 'nw': nw, 'nf': nf, 'r': r, 'o': o, 'n': n, 'steps': steps}
+    return {'s': s, 'nw': nw, 'nf': nf, 'r': r, 'o': o, 'n': n, 'steps': steps, 'reg': rng.choice(['ctor', 'ctor', 'like'])}
 
 def run_history(h, res):
     fx = lib.impl(); import numpy as np
@@ -46,7 +46,10 @@ def run_history(h, res):
     rec = S.Recorder()
     try:
         init = 0 if h['n'] == 0 else [0] * h['n']
-        x = fx.Fxp(init, s, nw, nf, rounding=h['r'], overflow=h['o'], callbacks=[rec])
+        if h.get('reg') == 'like':      # the callbacks registered on an object created from a template (like=) by the callbacks keyword
+            tmpl = fx.Fxp(init, s, nw, nf, rounding=h['r'], overflow=h['o']); x = fx.Fxp(init, like=tmpl, callbacks=[rec])
+        else:
+            x = fx.Fxp(init, s, nw, nf, rounding=h['r'], overflow=h['o'], callbacks=[rec])
     except Exception as e:
         res.fail(h, 'C04: constructing the object raised %s' % lib.exc_name(e), got=str(e)[:200]); return
     obs = []; msteps = []
@@ -82,7 +85,8 @@ def run_history(h, res):
                 st['_prop'] = (xin, yin, lib.status3(z)[2], lib.status3(z2)[2])
                 st['_unary'] = (xin, lib.status3(-x)[2], lib.status3(+x)[2], lib.status3(abs(x))[2],
                                 # the same operations through NumPy, and multiplication / division by a power of two
-                                lib.status3(np.negative(x))[2], lib.status3(np.abs(x))[2], lib.status3(x << 1)[2], lib.status3(x >> 1)[2])
+                                lib.status3(np.negative(x))[2], lib.status3(np.abs(x))[2], lib.status3(x << 1)[2], lib.status3(x >> 1)[2]) + \
+                               ((lib.status3(np.sum(x))[2], lib.status3(fx.fxp_sum(x))[2], lib.status3(np.cumsum(x))[2]) if np.ndim(x.val) > 0 else ())       # sums of the elements
                 obs.append(None); msteps.append(None)
         except Exception as e:
             res.fail(h, 'C04: step %r raised %s' % (st['op'], lib.exc_name(e)), got=str(e)[:200]); return
@@ -107,7 +111,7 @@ def compare(h, req_obs, out, res):
             if (xin or yin) and not (zin and z2in):
                 res.fail(h, 'C04: result of arithmetic does not carry the inaccuracy flag of an operand', expected=True, got=(zin, z2in)); return
             if un[0] and not all(un[1:]):
-                res.fail(h, 'C04: result of unary arithmetic (-x, +x, abs(x), np.negative, np.abs, x << 1, x >> 1) does not carry the inaccuracy flag of its operand', expected=True, got=un[1:]); return
+                res.fail(h, 'C04: result of unary arithmetic (-x, +x, abs(x), np.negative, np.abs, x << 1, x >> 1, np.sum, fxp_sum, np.cumsum) does not carry the inaccuracy flag of its operand', expected=True, got=un[1:]); return
             continue
         (mo, mu, mi, mx), mev = trace[ti]; ti += 1
         if (mo, mu, mi) != (False, False, False): any_flag = True
